@@ -38,9 +38,13 @@ theorem emit_iter_gen (m : ErrMode) (freq : Nat) (f : Nat → α × Option ε) (
 theorem emit_loop_gen : Golem.Gen.PipeSrc.Emit.loopKind0 = "index" := rfl
 theorem emit_cfg_gen : Golem.Gen.PipeSrc.Emit.cfg = emitCfg := rfl
 
-/-- Unfold: one iteration of the regenerated loop from `seed` = `unfoldIter` -/
+/-- Unfold: one iteration of the regenerated loop from `seed` = `unfoldIter`: the same actions, the same way of ending, and —
+unless the goroutine returns, after which the loop-carried variable is dead (Emit/Unfold have no deferred send) — the same
+next seed -/
 theorem unfold_iter_gen (m : ErrMode) (f : α → α × Option ε) (seed : α) :
-    runBody (Golem.Gen.PipeSrc.Unfold.body0 f (catchOf m)) seed = unfoldIter m f seed := by
+    (runBody (Golem.Gen.PipeSrc.Unfold.body0 f (catchOf m)) seed).2 = (unfoldIter m f seed).2 ∧
+    ((unfoldIter m f seed).2.2 ≠ .stop →
+      (runBody (Golem.Gen.PipeSrc.Unfold.body0 f (catchOf m)) seed).1 = (unfoldIter m f seed).1) := by
   cases h : (f seed).2 <;> cases m <;> simp [Golem.Gen.PipeSrc.Unfold.body0, unfoldIter, h]
 
 theorem unfold_loop_gen : Golem.Gen.PipeSrc.Unfold.loopKind0 = "state" := rfl
